@@ -288,17 +288,20 @@ Definition last_data (own : option bytes) (reps : list prog) : option bytes :=
 
 Definition p_c04 (st : step) : option N :=
   first_fail [
-    (* 5: a successful top-level execute / sudo of a program: the returned events START with the entry-point
+    (* 5: a successful top-level execute / migrate (the migrate event carries the NEW code id) / sudo of a program: the returned events START with the entry-point
           event, the wasm event iff attributes were set, then each custom event renamed with the contract
           attribute first — exactly, in that order *)
     (5, match st_outcome st, st_op st with
         | Ok [(ev, d)], TExec _ (MExec c p _) => is_prefix_ev (leaf_events EExec c 0 p) ev
+        | Ok [(ev, d)], TExec _ (MMigrate c nc p) => is_prefix_ev (leaf_events EMigrate c nc p) ev
         | Ok [(ev, d)], TWasmSudo c p => is_prefix_ev (leaf_events ESudo c 0 p) ev
         | _, _ => true end);
-    (* 6: leaf programs: events are exactly those, data = own data (execute: wrapped; sudo: raw) *)
+    (* 6: leaf programs: events are exactly those, data = own data (execute and migrate: wrapped; sudo: raw) *)
     (6, match st_outcome st, st_op st with
         | Ok [(ev, d)], TExec _ (MExec c p _) =>
             negb (prog_leaf p) || (events_eqb ev (leaf_events EExec c 0 p) && obytes_eqb d (option_map encode_exec_resp (own_data p)))
+        | Ok [(ev, d)], TExec _ (MMigrate c nc p) =>
+            negb (prog_leaf p) || (events_eqb ev (leaf_events EMigrate c nc p) && obytes_eqb d (option_map encode_exec_resp (own_data p)))
         | Ok [(ev, d)], TWasmSudo c p =>
             negb (prog_leaf p) || (events_eqb ev (leaf_events ESudo c 0 p) && obytes_eqb d (own_data p))
         | _, _ => true end);
@@ -338,6 +341,9 @@ Definition p_c04 (st : step) : option N :=
         | Ok [(ev, d)], TExec _ (MExec c p _) =>
             direct_reply_ran infos (match p with Prog n _ _ => n end) (st_trace st)
             || obytes_eqb d (option_map encode_exec_resp (own_data p))
+        | Ok [(ev, d)], TExec _ (MMigrate c nc p) =>
+            direct_reply_ran infos (match p with Prog n _ _ => n end) (st_trace st)
+            || obytes_eqb d (option_map encode_exec_resp (own_data p))
         | Ok [(ev, d)], TWasmSudo c p =>
             direct_reply_ran infos (match p with Prog n _ _ => n end) (st_trace st) || obytes_eqb d (own_data p)
         | _, _ => true end);
@@ -348,6 +354,9 @@ Definition p_c04 (st : step) : option N :=
     (10, let infos := flat_op (st_op st) in
          match st_outcome st, st_op st with
          | Ok [(ev, d)], TExec _ (MExec c p _) =>
+             let reps := direct_replies infos (match p with Prog n _ _ => n end) (st_trace st) in
+             negb (forallb prog_leaf reps) || obytes_eqb d (option_map encode_exec_resp (last_data (own_data p) reps))
+         | Ok [(ev, d)], TExec _ (MMigrate c nc p) =>
              let reps := direct_replies infos (match p with Prog n _ _ => n end) (st_trace st) in
              negb (forallb prog_leaf reps) || obytes_eqb d (option_map encode_exec_resp (last_data (own_data p) reps))
          | Ok [(ev, d)], TWasmSudo c p =>
